@@ -655,25 +655,55 @@ theorem toDigits_not_empty (p : Nat) : (Nat.toDigits 10 p).isEmpty = false := by
   have := toDigits_ne_nil p
   cases h : Nat.toDigits 10 p <;> simp_all
 
+/-- the head of a canonical decimal is a digit, so neither empty nor signed -/
+theorem toDigits_head (p : Nat) :
+    ((Nat.toDigits 10 p).isEmpty || (Nat.toDigits 10 p).head? == some '+' ||
+      (Nat.toDigits 10 p).head? == some '-') = false := by
+  have hd := toDigits_all_digit p
+  have hne := toDigits_ne_nil p
+  cases hl : Nat.toDigits 10 p with
+  | nil => exact absurd hl hne
+  | cons c cs =>
+    rw [hl] at hd
+    have hc : isDigit c = true := by simp at hd; exact hd.1
+    have h1 : c ≠ '+' := by intro e; subst e; revert hc; decide
+    have h2 : c ≠ '-' := by intro e; subst e; revert hc; decide
+    simp [h1, h2]
+
 theorem validateOpt_plain {cfg : Cfg} {h : Str} {p : Nat} (hb : cfg.optBits ≥ 17) (hhi : cfg.optHi ≤ 65535)
-    (hk : hostOK h = true) (hc : ':' ∉ h) (h1 : cfg.optLo ≤ p) (h2 : p ≤ cfg.optHi) :
+    (hk : hostOK h = true) (hc : ':' ∉ h) (hu : h ≠ "unix".toList) (h1 : cfg.optLo ≤ p) (h2 : p ≤ cfg.optHi) :
     validateEndpointOptionalPort cfg (h ++ ':' :: Nat.toDigits 10 p) = .ok := by
   obtain ⟨n1, n2, n3⟩ := toDigits_no_special p
   obtain ⟨b1, b2⟩ := hostOK_no_bracket hk
   have hne : h.isEmpty = false := by
     have := (hostOK_chars hk).1; cases h <;> simp_all
-  simp [validateEndpointOptionalPort, splitHostPort_plain hc b1 b2 n1 n2 n3, portCheck_decimal hb h1 h2 hhi, hk,
-    toDigits_not_empty, hne]
+  have hhead : ((h ++ ':' :: Nat.toDigits 10 p).head? == some '[') = false := by
+    cases h with
+    | nil => simp at hne
+    | cons c cs =>
+      have : c ≠ '[' := by intro e; exact b1 (by simp [e])
+      simp [this]
+  have hux : (h == "unix".toList) = false := by simpa using hu
+  unfold validateEndpointOptionalPort
+  have hse : (h ++ ':' :: Nat.toDigits 10 p).isEmpty = false := by cases h <;> simp
+  rw [hse, splitHostPort_plain hc b1 b2 n1 n2 n3]
+  simp only [Bool.false_eq_true, if_false, toDigits_head, hhead, Bool.false_and, hux,
+    portCheck_decimal hb h1 h2 hhi, hne, hk, if_true]
 
 theorem validateOpt_bracket {cfg : Cfg} {h : Str} {p : Nat} (hb : cfg.optBits ≥ 17) (hhi : cfg.optHi ≤ 65535)
-    (hk : hostOK h = true) (h1 : cfg.optLo ≤ p) (h2 : p ≤ cfg.optHi) :
+    (hk : hostOK h = true) (hc : ':' ∈ h) (h1 : cfg.optLo ≤ p) (h2 : p ≤ cfg.optHi) :
     validateEndpointOptionalPort cfg ('[' :: (h ++ ']' :: ':' :: Nat.toDigits 10 p)) = .ok := by
   obtain ⟨n1, n2, n3⟩ := toDigits_no_special p
   obtain ⟨b1, b2⟩ := hostOK_no_bracket hk
   have hne : h.isEmpty = false := by
     have := (hostOK_chars hk).1; cases h <;> simp_all
-  simp [validateEndpointOptionalPort, splitHostPort_bracket b1 b2 n1 n2 n3, portCheck_decimal hb h1 h2 hhi, hk,
-    toDigits_not_empty, hne]
+  have hcc : h.contains ':' = true := List.contains_iff_mem.mpr hc
+  have hux : (h == "unix".toList) = false := by
+    simp only [beq_eq_false_iff_ne, ne_eq]; intro e; subst e; revert hc; decide
+  unfold validateEndpointOptionalPort
+  rw [splitHostPort_bracket b1 b2 n1 n2 n3]
+  simp only [List.isEmpty_cons, Bool.false_eq_true, if_false, toDigits_head, hcc, Bool.not_true, Bool.and_false,
+    hux, portCheck_decimal hb h1 h2 hhi, hne, hk, if_true]
 
 /-- a host without port: SplitHostPort fails with "missing port", which is tolerated -/
 theorem validateOpt_bare {cfg : Cfg} {h : Str} (hk : hostOK h = true) (hc : ':' ∉ h) :
@@ -751,51 +781,62 @@ theorem validateEndpoint_wellformed {cfg : Cfg} {s : Str} (hb : cfg.epBits ≤ 6
   simp only [endpointWellFormed, hs, h64, hw.1, hw.2, Bool.true_and, Bool.and_eq_true, decide_eq_true_eq]
   omega
 
-theorem validateOpt_safe {cfg : Cfg} {s : Str} (h : validateEndpointOptionalPort cfg s = .ok) :
-    safeBareArg s = true := by
+/-- what an accepted optional-port value looks like -/
+theorem validateOpt_ok_cases {cfg : Cfg} {s : Str} (h : validateEndpointOptionalPort cfg s = .ok) :
+    s ≠ [] ∧
+    ((∃ k, splitHostPort s = .error k ∧ hostOK s = true) ∨
+     (∃ hst p, splitHostPort s = .ok (hst, p) ∧ p ≠ [] ∧ p.head? ≠ some '+' ∧
+        ¬ (s.head? = some '[' ∧ ':' ∉ hst) ∧ hst ≠ "unix".toList ∧
+        portCheck cfg.optBits cfg.optLo cfg.optHi p = .ok ∧ hostOK (if hst.isEmpty then s else hst) = true)) := by
   unfold validateEndpointOptionalPort at h
   by_cases he : s.isEmpty = true
   · simp [he] at h
   · simp only [he, Bool.false_eq_true, if_false] at h
-    have hne : s ≠ [] := by cases s <;> simp_all
+    refine ⟨by cases s <;> simp_all, ?_⟩
     cases hs : splitHostPort s with
     | error k =>
       simp only [hs] at h
       by_cases ht : tolerated k s = true
       · simp only [ht, if_true] at h
         by_cases hk : hostOK s = true
-        · exact safeBareArg_of_ep ⟨hne, hostOK_ep_chars hk⟩
+        · exact .inl ⟨k, rfl, hk⟩
         · simp [hk] at h
       · simp [ht] at h
     | ok q =>
       obtain ⟨hst, p⟩ := q
       simp only [hs] at h
-      by_cases hpe : p.isEmpty = true
-      · simp only [hpe, if_true] at h
-        have hp0 : p = [] := by cases p <;> simp_all
-        by_cases hhe : hst.isEmpty = true
-        · simp only [hhe, if_true] at h
-          by_cases hk : hostOK s = true
-          · exact safeBareArg_of_ep ⟨hne, hostOK_ep_chars hk⟩
-          · simp [hk] at h
-        · simp only [hhe, Bool.false_eq_true, if_false] at h
-          by_cases hk : hostOK hst = true
-          · exact safeBareArg_of_ep (assembled_chars hs (hostOK_ep_chars hk) (by simp [hp0]))
-          · simp [hk] at h
-      · simp only [hpe, Bool.false_eq_true, if_false] at h
-        cases hp : portCheck cfg.optBits cfg.optLo cfg.optHi p <;> simp only [hp] at h <;>
-          try (exact absurd h (by decide))
-        obtain ⟨v, hv, _, _⟩ := portCheck_ok hp
-        by_cases hhe : hst.isEmpty = true
-        · simp only [hhe, if_true] at h
-          by_cases hk : hostOK s = true
-          · exact safeBareArg_of_ep ⟨hne, hostOK_ep_chars hk⟩
-          · simp [hk] at h
-        · simp only [hhe, Bool.false_eq_true, if_false] at h
-          by_cases hk : hostOK hst = true
-          · exact safeBareArg_of_ep (assembled_chars hs (hostOK_ep_chars hk) (port_chars_ep hv))
-          · simp [hk] at h
-open NGF.CliSpec
+      right
+      by_cases c1 : (p.isEmpty || p.head? == some '+' || p.head? == some '-') = true
+      · simp only [c1, if_true] at h; exact absurd h (by decide)
+      · by_cases c2 : (s.head? == some '[' && !hst.contains ':') = true
+        · simp only [c1, c2, Bool.false_eq_true, if_false, if_true] at h; exact absurd h (by decide)
+        · by_cases c3 : (hst == "unix".toList) = true
+          · simp only [c1, c2, c3, Bool.false_eq_true, if_false, if_true] at h; exact absurd h (by decide)
+          · simp only [c1, c2, c3, Bool.false_eq_true, if_false] at h
+            cases hp : portCheck cfg.optBits cfg.optLo cfg.optHi p <;> simp only [hp] at h <;>
+              try (exact absurd h (by decide))
+            by_cases hk : hostOK (if hst.isEmpty then s else hst) = true
+            · simp only [Bool.or_eq_true, not_or, Bool.not_eq_true] at c1
+              refine ⟨hst, p, rfl, ?_, ?_, ?_, ?_, hp, hk⟩
+              · intro e; subst e; simp at c1
+              · intro e; simp [e] at c1
+              · rintro ⟨e1, e2⟩
+                apply c2
+                simp [e1, e2]
+              · intro e; apply c3; simp [e]
+            · simp only [hk, Bool.false_eq_true, if_false] at h; exact absurd h (by decide)
+
+theorem validateOpt_safe {cfg : Cfg} {s : Str} (h : validateEndpointOptionalPort cfg s = .ok) :
+    safeBareArg s = true := by
+  obtain ⟨hne, hc⟩ := validateOpt_ok_cases h
+  rcases hc with ⟨k, _, hk⟩ | ⟨hst, p, hs, _, _, _, _, hp, hk⟩
+  · exact safeBareArg_of_ep ⟨hne, hostOK_ep_chars hk⟩
+  · obtain ⟨v, hv, _, _⟩ := portCheck_ok hp
+    by_cases hhe : hst.isEmpty = true
+    · simp only [hhe, if_true] at hk
+      exact safeBareArg_of_ep ⟨hne, hostOK_ep_chars hk⟩
+    · simp only [hhe, Bool.false_eq_true, if_false] at hk
+      exact safeBareArg_of_ep (assembled_chars hs (hostOK_ep_chars hk) (port_chars_ep hv))
 
 /-! ### names -/
 
@@ -1309,79 +1350,6 @@ theorem nginxAddrOk_bracket {h p : Str} (h6 : isV6 h = true) (hb : ']' ∉ h) (h
   unfold nginxAddrOk
   rw [hu]
   simp [ngxInet6Url, hf, hp, h6]
-
-/-- `_partial`: outside the five known classes an accepted value is an NGINX address -/
-theorem validateOpt_nginx_addr {cfg : Cfg} {s : Str} (hlo : 1 ≤ cfg.optLo) (hhi : cfg.optHi ≤ 65535)
-    (h : validateEndpointOptionalPort cfg s = .ok) (hd : addrDefect s = none) : nginxAddrOk s = true := by
-  unfold validateEndpointOptionalPort at h
-  by_cases he : s.isEmpty = true
-  · simp [he] at h
-  · simp only [he, Bool.false_eq_true, if_false] at h
-    unfold addrDefect at hd
-    by_cases hbare : (s.contains ':' && parseIP s) = true
-    · simp only [hbare, if_true] at hd; exact absurd hd (by simp)
-    · simp only [hbare, Bool.false_eq_true, if_false] at hd
-      -- a host accepted as a whole cannot contain a colon (it would be a bare IPv6 address)
-      have whole : hostOK s = true → ':' ∉ s := by
-        intro hk m
-        simp only [hostOK, Bool.or_eq_true] at hk
-        rcases hk with hk | hk
-        · unfold validateIP at hk
-          simp only [he, Bool.false_eq_true, if_false] at hk
-          by_cases hp : parseIP s = true
-          · exact hbare (by rw [hp, contains_true_iff.mpr m]; rfl)
-          · simp [hp, Res.isOk] at hk
-        · exact dns_no_colon hk m
-      cases hs : splitHostPort s with
-      | error k =>
-        simp only [hs] at h
-        by_cases ht : tolerated k s = true
-        · simp only [ht, if_true] at h
-          by_cases hk : hostOK s = true
-          · exact nginxAddrOk_bare_host hk (whole hk)
-          · simp [hk] at h
-        · simp [ht] at h
-      | ok q =>
-        obtain ⟨hst, p⟩ := q
-        simp only [hs] at h hd
-        by_cases hpe : p.isEmpty = true
-        · simp only [hpe, if_true] at hd; exact absurd hd (by simp)
-        · simp only [hpe, Bool.false_eq_true, if_false] at h hd
-          by_cases hplus : (p.head? == some '+') = true
-          · simp only [hplus, if_true] at hd; exact absurd hd (by simp)
-          · simp only [hplus, Bool.false_eq_true, if_false] at hd
-            cases hp : portCheck cfg.optBits cfg.optLo cfg.optHi p <;> simp only [hp] at h <;>
-              try (exact absurd h (by decide))
-            obtain ⟨npo, pdig⟩ := ngxPortOK_of_portCheck hlo hhi hp (by simpa using hplus)
-            by_cases hhe : hst.isEmpty = true
-            · -- empty host: the whole value would have to be a host, but it contains ':'
-              simp only [hhe, if_true] at h
-              by_cases hk : hostOK s = true
-              · exfalso
-                apply whole hk
-                rcases splitHostPort_ok hs with ⟨e, _⟩ | ⟨e, _⟩ <;> (subst e; simp)
-              · simp [hk] at h
-            · simp only [hhe, Bool.false_eq_true, if_false] at h
-              by_cases hk : hostOK hst = true
-              · rcases splitHostPort_ok hs with ⟨e, hc, _⟩ | ⟨e, _, hb, _⟩
-                · subst e
-                  by_cases hu : hasUnixPrefix (hst ++ ':' :: p) = true
-                  · have : (hst ++ ':' :: p).head? ≠ some '[' := by
-                      obtain ⟨ne, hch⟩ := hostOK_chars hk
-                      cases hst with
-                      | nil => exact absurd rfl ne
-                      | cons c r =>
-                        have := (hostChar_plain (hch c (by simp))).2.2.1
-                        simpa using this
-                    simp only [hu, if_true] at hd
-                    split at hd <;> exact absurd hd (by simp)
-                  · exact nginxAddrOk_plain hk hc npo pdig (by simpa using hu)
-                · subst e
-                  by_cases h6 : isV6 hst = true
-                  · exact nginxAddrOk_bracket h6 hb npo
-                  · simp [h6] at hd
-              · simp [hk] at h
-open NGF.CliSpec
 
 /-! ### the NGINX tokenizer on a safe bare argument -/
 
